@@ -537,7 +537,7 @@ def _mutate_result(res):
         q += 5
 
 
-def random_arith_input(rng, op, L, d=2, Dmax=3):
+def random_arith_input(rng, op, L, d=2, Dmax=3, real=(False, False)):
     import pytenet as ptn
     qd = rng.integers(-1, 2, size=d)
     kinds = dict(add_mps=('mps', 'mps'), add_mpo=('mpo', 'mpo'), multiply_mpo=('mpo', 'mpo'), apply_operator=('mpo', 'mps'))[op]
@@ -547,7 +547,7 @@ def random_arith_input(rng, op, L, d=2, Dmax=3):
         D = [1] + [int(rng.integers(1, Dmax + 1)) for _ in range(L - 1)] + [1]
         qD = [ql] + [rng.integers(-1, 2, size=D[i]) for i in range(1, L)] + [qr]
         x = (ptn.MPS if kind == 'mps' else ptn.MPO)(qd, qD, fill='random', rng=rng)
-        out[f'x{k}'] = dict(qd=qd.tolist(), qD=[q.tolist() for q in qD], A=[a.tolist() for a in x.A])
+        out[f'x{k}'] = dict(qd=qd.tolist(), qD=[q.tolist() for q in qD], A=[(a.real if real[k] else a).tolist() for a in x.A])
     return out
 
 
